@@ -227,6 +227,12 @@ class Engine:
         log = core.EventLog(keep=True)
         prng = random.Random(plan["pool_seed"])
         pool = texts.make_pool(prng, plan["n_valid"], plan["n_broken"], plan["n_ws"])
+        for i, p_ in enumerate(pool):
+            try:
+                self.reference(p_["text"], LABELS[0])
+            except RecursionError:
+                # too deep even for an uncached parse under this interpreter's limits: not a usable pool text
+                pool[i] = {"text": texts.make_valid(prng, i), "broken": False, "base": None}
         pool_texts = [p["text"] for p in pool]
         hashes = [txt_hash(t) for t in pool_texts]
         hash_to_idx = {h: i for i, h in enumerate(hashes)}
